@@ -136,6 +136,7 @@ func (o *Overlay) TransmitMsg(onetMsg *ProtocolMsg, io MessageProxy) error {
 	// over (or the last instance using the tree).
 	tree := o.treeStorage.getAndRefresh(onetMsg.To.TreeID)
 	if tree == nil {
+		verifAt("overlay.treeMiss", o, onetMsg)
 		// request anyway because we need to store the pending message
 		// the following routine will take care of requesting once
 		err := o.requestTree(onetMsg.ServerIdentity, onetMsg, io)
@@ -145,6 +146,7 @@ func (o *Overlay) TransmitMsg(onetMsg *ProtocolMsg, io MessageProxy) error {
 		return nil
 	}
 
+	verifAt("overlay.treeHit", o, onetMsg)
 	o.transmitMux.Lock()
 	defer o.transmitMux.Unlock()
 	// TreeNodeInstance
@@ -211,6 +213,7 @@ func (o *Overlay) TransmitMsg(onetMsg *ProtocolMsg, io MessageProxy) error {
 		}
 		log.Lvl4(o.server.Address(), "Overlay created new ProtocolInstace msg => ",
 			fmt.Sprintf("%+v", onetMsg.To))
+		verifAt("overlay.instanceCreated", o, onetMsg)
 	}
 	// TODO Check if TreeNodeInstance is already Done
 	log.Lvl4("starting procprotomsg")
@@ -242,6 +245,7 @@ func (o *Overlay) checkPendingMessages(t *Tree) {
 	// This goroutine has no recover because the underlying code should never panic
 	// and TransmitMsg does its own recovering
 	go func() {
+		verifAt("overlay.flushStart", o, t)
 		o.pendingMsgLock.Lock()
 
 		var newPending []pendingMsg
@@ -257,6 +261,7 @@ func (o *Overlay) checkPendingMessages(t *Tree) {
 
 		o.pendingMsg = newPending
 		o.pendingMsgLock.Unlock()
+		verifAt("overlay.flushTaken", o, t)
 
 		for _, msg := range remaining {
 			err := o.TransmitMsg(msg.ProtocolMsg, msg.MessageProxy)
@@ -306,6 +311,7 @@ func (o *Overlay) savePendingMsg(onetMsg *ProtocolMsg, io MessageProxy) {
 // io is the wrapper to use to send the message, it can be nil.
 func (o *Overlay) requestTree(si *network.ServerIdentity, onetMsg *ProtocolMsg, io MessageProxy) error {
 	o.savePendingMsg(onetMsg, io)
+	verifAt("overlay.parked", o, onetMsg)
 
 	// try to prepare the message before locking the storage
 	msg, err := io.Wrap(nil, &OverlayMsg{
@@ -320,8 +326,10 @@ func (o *Overlay) requestTree(si *network.ServerIdentity, onetMsg *ProtocolMsg, 
 		return nil
 	}
 
+	verifAt("overlay.notRegistered", o, onetMsg)
 	// register the tree as known (can be stored)
 	o.treeStorage.Register(onetMsg.To.TreeID)
+	verifAt("overlay.registered", o, onetMsg)
 
 	// no need to record sentLen because Overlay uses Server's CounterIO
 	_, err = o.server.Send(si, msg)
@@ -336,6 +344,7 @@ func (o *Overlay) requestTree(si *network.ServerIdentity, onetMsg *ProtocolMsg, 
 // RegisterTree takes a tree and puts it in the map
 func (o *Overlay) RegisterTree(t *Tree) {
 	o.treeStorage.Set(t)
+	verifAt("overlay.treeSet", o, t)
 
 	o.checkPendingMessages(t)
 }
@@ -628,6 +637,7 @@ func (o *Overlay) nodeDelete(token *Token) {
 
 	// mark it done !
 	o.instancesInfo[tok] = true
+	verifAt("overlay.nodeDeleted", o, token)
 }
 
 // checks if another instance is using the same tree and clean it
